@@ -634,6 +634,13 @@ func rulePlan(c *core.Ctx) {
 				continue
 			}
 			if normPlan(got) == normPlan(pr.want) {
+				// a deviation the back end's runtime depends on is not optional: MATLAB arrays are column-major, its
+				// runtime builds the array shape as [item_shape shape_] and matlab/types emits the default value with the
+				// reversed extents, so the extent list handed to FixedNDArraySerializer has to be reversed as well
+				if _, must := b.exceptions["FIXEDNDARRAY.dims"]; must && strings.HasPrefix(pr.key, "dim=Array,fixed") {
+					c.Bad(rule, okey, pos, "the MATLAB shape list of a fixed array is emitted in declaration order ("+got+"); MATLAB is column-major — the runtime and the default values (matlab/types) use the reversed extents — so an N-d fixed array is reshaped with the wrong shape and its elements are scrambled relative to C++ and Python")
+					continue
+				}
 				c.OK(rule, okey, pos, got)
 				continue
 			}
